@@ -338,6 +338,38 @@ def shard(ctx, si, payload):
             plotobs.check_stage(ctx, f"RegionGeom.__call__ (altitude {cfgt[0]})", lambda: RegionGeom(cfg), lambda o, kw: o(500, **kw), (), "call", seed=int(rng.integers(2**31)))
 
 
+def side_by_side(ctx, si, payload):
+    """Several geometry objects alive at once (built first, thrown afterwards, as a side-by-side
+    comparison of detector altitudes or limb angles does): each gives, bit for bit, what an object
+    built and thrown on its own gives."""
+    from nuspacesim.simulation.geometry.region_geometry import RegionGeom
+
+    rng = ctx.subrng("c02-side", si)
+    cfgts = list(payload["cfgs"])
+    cfgts.append((cfgts[0][0] * 1.7 + 3.0,) + tuple(cfgts[0][1:3]) + (0.3, None, None))
+    objs = [(c_, RegionGeom(make_cfg(*c_))) for c_ in cfgts]
+    for c_, g_old in objs:
+        u = rng.uniform(0, 1, (4, 3000))
+        u[3, :4] = [0.0, 1.0, 0.5, 1e-9]
+        try:
+            g_old.throw(u.copy())
+            g_new = RegionGeom(make_cfg(*c_))
+            g_new.throw(u.copy())
+        except Exception as e:
+            ctx.exception("raises", "throw raised with several geometry objects alive", e, {"cfg": c_})
+            continue
+        ctx.count("side-by-side", u.shape[1])
+        for a, v in vars(g_new).items():
+            if not isinstance(v, np.ndarray):
+                continue
+            w_ = getattr(g_old, a, None)
+            if not (isinstance(w_, np.ndarray) and w_.shape == v.shape and w_.tobytes() == v.tobytes()):
+                d = np.flatnonzero(~((w_ == v) | (np.isnan(w_.astype(float)) & np.isnan(v.astype(float))))) if isinstance(w_, np.ndarray) and w_.shape == v.shape else np.zeros(1, int)
+                i = int(d[0]) if d.size else 0
+                ctx.violation("history", f"altitude {c_[0]} km: an object built before {len(objs) - 1} other geometry objects gives {a}[{i}] = {np.ravel(w_)[i] if isinstance(w_, np.ndarray) and w_.size > i else w_!r} for u = {u[:, i].tolist()}; an object built and thrown on its own gives {np.ravel(v)[i]!r} ({d.size} of {v.size} entries differ)", {"cfg": c_, "attribute": a, "objects_alive": len(objs)})
+                break
+
+
 def run(ctx):
     rng = ctx.subrng("c02-main")
     ncfg = ctx.pick(12, 160)
@@ -346,7 +378,8 @@ def run(ctx):
     nsh = ctx.pick(6, 16)
     payloads = [{"cfgs": cfgs[i::nsh], "nint": nint} for i in range(nsh)]
     core.run_shards(ctx, "nssmon.checks.c02", "shard", payloads, workers=nsh)
-    for m in ("range", "inverse-cdf", "inverse-cdf-decimal", "monotone", "spot", "emergence", "mask", "along", "along-after-rethrow", "history", "call", "plots"):
+    core.run_shards(ctx, "nssmon.checks.c02", "side_by_side", [{"cfgs": cfgs[i::4]} for i in range(4)], workers=4)
+    for m in ("range", "inverse-cdf", "inverse-cdf-decimal", "monotone", "spot", "emergence", "mask", "along", "along-after-rethrow", "history", "side-by-side", "call", "plots"):
         ctx.require(m)
     if ctx.obs.get("kept_events_seen", 0) < 1000:
         ctx.inconclusive_because("fewer than 1000 kept events were observed")
